@@ -380,18 +380,18 @@ func crashClass(stderr string) string {
 // ---------------------------------------------------------------------------
 
 type ReplayFile struct {
-	Property  string          `json:"property"`
-	Oracle    string          `json:"oracle"`
-	Class     string          `json:"class"`
-	Detail    string          `json:"detail"`
-	World     string          `json:"world"`
-	Seed      uint64          `json:"seed"`
-	Profile   string          `json:"profile"`
-	TraceHash string          `json:"trace_hash"`
-	ShrinkRuns int            `json:"shrink_runs"`
-	Scenario  json.RawMessage `json:"scenario"`
-	Events    []string        `json:"events,omitempty"`
-	Note      string          `json:"note"`
+	Property   string          `json:"property"`
+	Oracle     string          `json:"oracle"`
+	Class      string          `json:"class"`
+	Detail     string          `json:"detail"`
+	World      string          `json:"world"`
+	Seed       uint64          `json:"seed"`
+	Profile    string          `json:"profile"`
+	TraceHash  string          `json:"trace_hash"`
+	ShrinkRuns int             `json:"shrink_runs"`
+	Scenario   json.RawMessage `json:"scenario"`
+	Events     []string        `json:"events,omitempty"`
+	Note       string          `json:"note"`
 }
 
 type KnownFinding struct {
@@ -744,32 +744,32 @@ func writeEvidence(plan *Plan, tier string, verifSeed uint64, agg *Agg, start ti
 		fmt.Fprintf(os.Stderr, "verifctl: note: probes stuck at zero for %s: %v (workload did not reach these conditions in this run)\n", plan.ID, stuck)
 	}
 	cov := map[string]interface{}{
-		"evaluations":         agg.Evals,
-		"distinct_nontrivial": len(agg.nontrivial),
-		"distinct_scenarios":  len(agg.distinct),
-		"rule":                plan.Rule,
-		"samples":             samples,
-		"runs_per_hour":       int(float64(agg.Evals) / wall * 3600),
-		"simulated_steps":     agg.Steps,
-		"steps_per_run":       float64(agg.Steps) / float64(max1(agg.Evals)),
-		"simulated_time_note": "go-slug reads no clock and sets no timer; simulated time is the global event sequence number (device calls, peer calls, scheduler decisions)",
-		"schedule_decisions":  agg.Decisions,
-		"distinct_interleavings": len(agg.inters),
-		"distinct_abstract_states": len(agg.states),
-		"state_measure":       "hash of the reference model's state after each operation (UW/PW: model tree shape; BW: packages fetched, (source,finder) pairs analysed, registry answers cached)",
-		"faults_fired":        agg.Faults,
-		"probes":              agg.Probes,
-		"probes_stuck_at_zero": stuck,
-		"runs_per_leg":        agg.PerLeg,
-		"generator_skips":     agg.Skipped,
-		"uid_mix":             uidMix,
-		"arena_mode":          "chroot on " + scratchBase,
-		"components_real":     plan.Real,
-		"components_simulated": plan.Sim,
-		"known_findings_seen": knownSeen,
+		"evaluations":                         agg.Evals,
+		"distinct_nontrivial":                 len(agg.nontrivial),
+		"distinct_scenarios":                  len(agg.distinct),
+		"rule":                                plan.Rule,
+		"samples":                             samples,
+		"runs_per_hour":                       int(float64(agg.Evals) / wall * 3600),
+		"simulated_steps":                     agg.Steps,
+		"steps_per_run":                       float64(agg.Steps) / float64(max1(agg.Evals)),
+		"simulated_time_note":                 "go-slug reads no clock and sets no timer; simulated time is the global event sequence number (device calls, peer calls, scheduler decisions)",
+		"schedule_decisions":                  agg.Decisions,
+		"distinct_interleavings":              len(agg.inters),
+		"distinct_abstract_states":            len(agg.states),
+		"state_measure":                       "hash of the reference model's state after each operation (UW/PW: model tree shape; BW: packages fetched, (source,finder) pairs analysed, registry answers cached)",
+		"faults_fired":                        agg.Faults,
+		"probes":                              agg.Probes,
+		"probes_stuck_at_zero":                stuck,
+		"runs_per_leg":                        agg.PerLeg,
+		"generator_skips":                     agg.Skipped,
+		"uid_mix":                             uidMix,
+		"arena_mode":                          "chroot on " + scratchBase,
+		"components_real":                     plan.Real,
+		"components_simulated":                plan.Sim,
+		"known_findings_seen":                 knownSeen,
 		"violations_of_other_properties_seen": agg.OtherProps,
-		"reported":            reported,
-		"exhaustive":          false,
+		"reported":                            reported,
+		"exhaustive":                          false,
 	}
 	ev := map[string]interface{}{
 		"property_id": plan.ID,
